@@ -6,7 +6,8 @@ from checks.syntaxlib import run_syntax
 META = {
     "text": "Stage 1: Spec.run is a total Lean function whose outcome type has no crash alternative (outcome_defined, first_error_wins, run_is_pure) and is "
             "differentially tied to compiler+VM, where a recovered Go panic is an outcome the model must agree on; every compiled program is run twice "
-            "(state left behind) under a watchdog; a byte-level stream feeds the real parser. Stage 2 (vm_never_panics on the bytecode model) is planned.",
+            "(state left behind) under a watchdog and the whole case list is executed again in the opposite order in a second process (an outcome that "
+            "depends on the cases executed before it = state left behind; replay = the earlier case + the case); a byte-level stream feeds the real parser. Stage 2 (vm_never_panics on the bytecode model) is planned.",
     "note": "PARTIAL: the ANTLR parser and the bytecode VM are not modelled yet, so 'never panics' is proved for Spec and observed (not proved) for the real "
             "parser/compiler/VM on the sampled inputs. Trusted: Lean kernel; harness; watchdog timeout = hang.",
     "technique": "Lean 4 proof (totality/typing of the Spec interpreter) + differential correspondence with panic as an outcome + crash/hang oracle",
@@ -33,14 +34,20 @@ def run(ctx):
             proj_impl=lambda i, o: {"panic": True} if "panic" in o else {k: v for k, v in strip(o).items() if k not in ("lockR", "lockW")},
             proj_model=lambda i, o: {k: v for k, v in o.items() if k not in ("lockR", "lockW")})
     seen, nontrivial = set(), 0
+    rp = Replays(ctx, inputs)
     for inp in inputs:
         out = impl.get(inp["id"], {})
         if "panic" in out:
-            ctx.violation({"property": "C12", "class": "panic", "message": panic_kind(out["panic"])},
-                          "the engine panicked: %s" % out["panic"], {"area": "numscript", "input": inp, "observed": out})
+            rp.violation({"property": "C12", "class": "panic", "message": panic_kind(out["panic"])},
+                         "the engine panicked: %s" % out["panic"], inp, out, lambda o: "panic" in o)
         if "unstable" in out:
-            ctx.violation({"property": "C12", "class": "leaves-state-behind"}, "second execution of the same compiled program differs",
-                          {"area": "numscript", "input": inp, "observed": out})
+            rp.violation({"property": "C12", "class": "leaves-state-behind"}, "second execution of the same compiled program differs",
+                         inp, out, lambda o: "unstable" in o)
+    # all cases again in the opposite order, in another process: no outcome may depend on what ran before it
+    ctx.cov["order_dependent_outcomes"] = order_dependence(ctx, inputs, impl, rp, "C12", "leaves-state-behind")
+    ctx.cov["replay_isolation"] = dict(rp.stats)
+    for inp in inputs:
+        out = impl.get(inp["id"], {})
         h = shash(inp["text"])
         if h not in seen and out.get("err") != "compile_error":
             nontrivial += 1
